@@ -378,8 +378,8 @@ func (s *ClientSession) doMsg(stream *Stream) error {
 	case base.RtmpTypeIdVideo:
 		s.onReadRtmpAvMsg(stream.toAvMsg())
 	default:
+		// 注意，对端发送了我们不认识的消息类型，忽略即可，不能panic（会导致整个进程退出）
 		Log.Errorf("[%s] read unknown message. typeid=%d, %s", s.UniqueKey(), stream.header.MsgTypeId, stream.toDebugString())
-		panic(0)
 	}
 	return nil
 }
